@@ -61,7 +61,7 @@ Open Scope nat_scope.
 
 DRIVER = "vf.impl.c03_driver"
 KINDS = ["list", "tuple", "numpy", "from_arrays"]
-EDGE_DEP = ("edge", "cell_to_edge", "edge_id", "is_edge_on_border", "is_edge_on_border_v", "boundary_edges",
+EDGE_DEP = ("edge", "edge_v", "cell_to_edge", "edge_id", "is_edge_on_border", "is_edge_on_border_v", "boundary_edges",
             "interior_edges", "enable_bc")
 
 
@@ -175,10 +175,11 @@ def full_script(mesh, first=None):
 def gen_case(rng, big=False):
     if rng.random() < 0.05:
         mesh, F0 = G.fan_with_cell0_inside(rng)
-        edge_ids = {tuple(sorted(t)): i for i, t in enumerate(counts(mesh)[1])}
+        shared = [t for t in counts(mesh)[1] if sum(1 for c in mesh["C"] if t[0] in c and t[1] in c) >= 2]
         case = {"argrep": "int", "scale_exp": 0, "collide": False, "degenerate": False, "V": mesh["V"], "C": mesh["C"],
                 "F0": F0, "E0": [], "kind": rng.choice(KINDS), "sort": True,
-                "script": gen_script(rng, mesh, 6, True, True) + [["edge", e, rng.choice(["cf", "fc"])] for e in range(len(edge_ids))],
+                "script": gen_script(rng, mesh, 4, True, True)
+                + [["edge_v", t[0], t[1], rng.choice(["cf", "fc"])] for t in shared],
                 "tags": ["seed=fan-with-cell-0-inside"], "edge_manifold": True}
         return case
     mesh, tags = G.gen_mesh(rng, big=big)
@@ -262,7 +263,9 @@ def case_term(case, obs):
             continue
         if op[0] in ("face_id_t", "face_id_l"):
             op = ["face_id"] + list(op[1:])
-        if op[0] == "edge":
+        if op[0] == "edge_v":
+            qs.append("(QEdgeV %d %d, %s)" % (op[1], op[2], ans_term(a)))
+        elif op[0] == "edge":
             qs.append("(QEdge %d, %s)" % (op[1], ans_term(a)))
         elif op[0] == "enable_bc":
             if a[0] == "bc" and wellformed_maps(a[1], ["m2b_v", "b2m_v", "m2b_f", "b2m_f", "m2b_e", "b2m_e"]):
